@@ -492,7 +492,10 @@ def check_times(ctx, cases):
 # 3. ProgramEntry._sample_waveforms
 # =============================================================================================
 
-CHANS = ['A', 'B', 'C', 'M', 'N']          # channel ids on the wire are indices into this list
+# channel ids on the wire are indices into this list.  ChannelID = str | int: the integer 0 and the empty
+# string are legal (falsy) ids and must be treated like any other assigned output
+CHANS = ['A', 'B', 'C', 'M', 'N', 0, 1, 2, '']
+MARKERLIKE = ('M', 'N', 2, '')
 TRAFOS = [None, None, ['affine', 2.0, 0.25], ['affine', -0.5, 1.0], ['affine', 1.0, 0.0], 'abs', 'square']
 
 
@@ -548,7 +551,7 @@ def gen_wf_desc(rng, n_samples: int, sr: F, chans, exact: bool, dev: F = F(0)):
     parts = []
     for ch in chans:
         kind = rng.random()
-        marker = ch in ('M', 'N')
+        marker = ch in MARKERLIKE
         if kind < 0.35 or dev != 0:
             v = rng.choice([0.0, 1.0, -1.0, 0.5, -0.0]) if marker else rng.randrange(-16, 17) / 8
             parts.append(['const', ch, v])
@@ -588,9 +591,9 @@ def gen_edge_cases(rng, n):
     for _ in range(n):
         sr = rng.choice(EDGE_RATES)
         n_out = rng.randrange(1, 3)
-        chans = [rng.choice(['A', 'B']) for _i in range(n_out)]
-        marks = [rng.choice(['M', 'N']) for _i in range(rng.randrange(0, 3))]
-        used = sorted({c for c in chans + marks})
+        chans = [rng.choice(['A', 'B', 0]) for _i in range(n_out)]
+        marks = [rng.choice(['M', 'N', 2]) for _i in range(rng.randrange(0, 3))]
+        used = sorted({c for c in chans + marks}, key=CHANS.index)
         wfs, seen = [], set()
         for _w in range(rng.randrange(1, 4)):
             ns = rng.randrange(6, 49)
@@ -598,7 +601,7 @@ def gen_edge_cases(rng, n):
             sensitive = [k for k in range(1, ns) if k * period != k / float(sr)]
             parts = []
             for ch in used:
-                marker = ch in ('M', 'N')
+                marker = ch in MARKERLIKE
                 pool = sensitive if sensitive and rng.random() < 0.8 else list(range(1, ns))
                 ks = sorted(set(rng.sample(pool, min(len(pool), rng.randrange(1, 5)))))
                 ent = []
@@ -632,8 +635,13 @@ def gen_sample_cases(rng, n):
         exact = rng.random() < 0.7
         sr = rng.choice([F(1), F(2), F(1, 2), F(4), F(1), F(2)]) if exact else rng.choice([F(1), F(2), F(12, 5), F(1, 3)])
         n_out = rng.randrange(1, 4)
-        chans = [rng.choice(['A', 'B', 'C', None]) for _i in range(n_out)]
-        marks = [rng.choice(['M', 'N', 'A', None]) for _i in range(rng.randrange(0, 3))]
+        int_ids = rng.random() < 0.4
+        if int_ids:     # integer (incl. 0) and empty-string ids mixed with strings and None
+            chans = [rng.choice([0, 0, 1, 'A', 'B', None]) for _i in range(n_out)]
+            marks = [rng.choice([0, 2, '', 'M', 1, None]) for _i in range(rng.randrange(0, 3))]
+        else:
+            chans = [rng.choice(['A', 'B', 'C', None]) for _i in range(n_out)]
+            marks = [rng.choice(['M', 'N', 'A', None]) for _i in range(rng.randrange(0, 3))]
         if exact:
             amps = [2.0 ** rng.randrange(-3, 4) for _i in chans]
             offs = [rng.randrange(-8, 9) / 8 for _i in chans]
@@ -641,7 +649,7 @@ def gen_sample_cases(rng, n):
             amps = [rng.choice([0.3, 1.0, 2.5, rng.uniform(0.05, 4)]) for _i in chans]
             offs = [rng.choice([0.0, 0.1, rng.uniform(-1, 1)]) for _i in chans]
         trafos = [rng.choice(TRAFOS) for _i in chans]
-        used = sorted({c for c in chans + marks if c is not None})
+        used = sorted({c for c in chans + marks if c is not None}, key=CHANS.index)
         wfs = []
         seen = set()
         malformed = rng.random() < 0.12
@@ -667,7 +675,8 @@ def gen_sample_cases(rng, n):
             seen.add(key)
             wfs.append(d)
         cases.append({'sr': [sr.numerator, sr.denominator], 'channels': chans, 'markers': marks, 'amps': amps,
-                      'offs': offs, 'trafos': trafos, 'wfs': wfs, 'stream': 'exact' if exact else 'tol'})
+                      'offs': offs, 'trafos': trafos, 'wfs': wfs, 'stream': 'exact' if exact else 'tol',
+                      'fam': 'int-ids' if int_ids else 'str-ids'})
     return cases
 
 
@@ -701,6 +710,11 @@ class _Entry:
         return cls.cls
 
 
+class _BadShape(Exception):
+    """an output of _sample_waveforms is not a one-dimensional array (raised by the observable extraction)"""
+    last = ''
+
+
 def check_sample(ctx, cases):
     U, P, B, W, TimeType = _imports()
     from qupulse.program.loop import Loop
@@ -719,6 +733,12 @@ def check_sample(ctx, cases):
             res = []
             for wf in wfs:
                 chs, mks = got[wf]
+                for what, arrs in (('channel', chs), ('marker', mks)):
+                    for pos, a in enumerate(arrs):
+                        if a is not None and np.ndim(a) != 1:
+                            _BadShape.last = 'sampled %s output %d has shape %r instead of one row of samples' \
+                                             % (what, pos, np.shape(a))
+                            raise _BadShape(_BadShape.last)
                 res.append(([None if a is None else [float(x) for x in a] for a in chs],
                             [None if a is None else [bool(x) for x in a] for a in mks]))
             return res
@@ -762,6 +782,9 @@ def check_sample(ctx, cases):
         m = model_outcome(a, conv)
         ctx.case(line, nontrivial=o[0] == 'ok')
         ctx.count('sample:%s:%s' % (c['stream'], o[0] if o[0] == 'ok' else o[1]))
+        for ch in c['channels'] + c['markers']:
+            ctx.count('sample:channel-id:%s' % ('None' if ch is None else 'int-0' if ch == 0 and ch != '' and not isinstance(ch, str)
+                                                else 'int' if isinstance(ch, int) else 'empty-string' if ch == '' else 'str'))
         if c.get('fam') == 'edge':
             ctx.count('sample:steps-and-marker-edges-on-sample-points(rate %s)' % F(*c['sr']))
         for t in c['trafos']:
@@ -775,6 +798,10 @@ def check_sample(ctx, cases):
                           'channels=%r markers=%r amps=%r offs=%r trafos=%r rate=%s waveforms=%r'
                           % (c['channels'], c['markers'], c['amps'], c['offs'], c['trafos'], F(*c['sr']),
                              c['wfs'])[:900], dict(rep, impl=repr(o)[:600], judge=jv))
+            continue
+        if o[0] == 'error' and o[1] == 'other:_BadShape':
+            _viol(ctx, '_sample_waveforms: %s (channels=%r markers=%r waveforms=%r)'
+                  % (_BadShape.last, c['channels'], c['markers'], c['wfs']), dict(rep, impl=_BadShape.last))
             continue
         if o[0] == 'error' and m[0] == 'ok':
             _viol(ctx, '_sample_waveforms raised %s although every waveform has a whole number of samples and '
@@ -1221,7 +1248,7 @@ def check_average_malformed(ctx):
 MODELLED = [
     ('qupulse.hardware.util', '_voltage_to_uint16_numba'), ('qupulse.hardware.util', '_voltage_to_uint16_numpy'),
     ('qupulse.hardware.util', 'voltage_to_uint16'), ('qupulse.hardware.util', 'get_waveform_length'),
-    ('qupulse.hardware.util', 'get_sample_times'),
+    ('qupulse.hardware.util', 'get_sample_times'), ('qupulse.hardware.util', 'not_none_indices'),
     ('qupulse.utils.performance', '_shrink_overlapping_windows_numpy'),
     ('qupulse.utils.performance', '_shrink_overlapping_windows_numba'),
     ('qupulse.utils.performance', '_time_windows_to_samples_numba'),
@@ -1286,7 +1313,8 @@ def run(ctx: core.Ctx):
         'random arrays with power-of-two amplitude (exact) + arbitrary floats (toleranced); get_sample_times: '
         'lists of durations k/rate, off-grid, at and around the 1e-10 tolerance, zero, empty list; '
         '_sample_waveforms: a minimal ProgramEntry subclass on Constant/Table/Function/MultiChannel waveforms '
-        'with None channels, markers, transformations None/affine/abs/square, hold/jump steps and marker edges exactly on '
+        'with None channels, markers, channel and marker ids that are strings, integers incl. 0 and the empty string '
+        '(ChannelID = str | int; falsy ids are assigned outputs), transformations None/affine/abs/square, hold/jump steps and marker edges exactly on '
         'sample points k/rate for rates 3, 6, 7, 9, 5, 3/10, 7/10, 7/3, 10/3 (preferring the k where k*(1/rate) != k/rate), '
         'missing channels and '
         'non-integral lengths as malformed stream; time_windows_to_samples: arrays of 0..40 windows sorted / '
